@@ -281,6 +281,40 @@ def s7(ctx, rep):
                 "new brackets do not cycle through the configured rung systems")
 
 
+def s2b(ctx, rep):
+    """guard table of the bracket protocol (found thin by the generic mutation audit)"""
+    from .common import require_guard, call_nodes
+    P = ctx.P
+    b = P.cls("SynchronousBracket")
+    for mname, what in (("next_free_slot", "no slot is handed out"), ("num_pending_slots", "no slot counts as pending")):
+        m = b.methods[mname]
+        cm = cfg_of(m)
+        first = [n.id for n in cm.nodes if n.kind == "stmt" and isinstance(n.ast, ast.Return) and isinstance(n.ast.value, ast.Constant)
+                 and n.ast.value.value in (None, 0)][:1]
+        require_guard(ctx, rep, "S2", m, f"SynchronousBracket.{mname}: {what} | the bracket is complete", first,
+                      [("self.is_bracket_complete()", lambda a: a[0] == "truth" and a[1] == "self.is_bracket_complete()" and a[2] is True)],
+                      "a finished bracket keeps handing out work, or an open one refuses to")
+    o = b.methods["on_result"]
+    nodes = [n for n, c in call_nodes(ctx, o, lambda c: fn_name(c) == "_promote_trials_at_rung_complete")]
+    require_guard(ctx, rep, "S3", o, "SynchronousBracket.on_result: the next rung is opened | the bracket is not complete yet", nodes,
+                  [("not self.is_bracket_complete()", lambda a: a[0] == "truth" and a[1] == "self.is_bracket_complete()" and a[2] is False)],
+                  "promotion is attempted beyond the last rung, or the next rung of an open bracket is never filled")
+    for cname in ("SynchronousHyperbandScheduler", "DifferentialEvolutionHyperbandScheduler"):
+        m = P.method(cname, "on_trial_result")
+        nodes = [n for n, c in call_nodes(ctx, m, lambda c: fn_name(c) in ("_on_result", "_return_slot_result_to_bracket"))]
+        require_guard(ctx, rep, "S6", m, f"{cname}.on_trial_result: a result is returned to the bracket | the trial is pending and reached its level", nodes,
+                      [("trial_id in self._trial_to_pending_slot", lambda a: a[0] == "in" and a[2] == "self._trial_to_pending_slot" and a[3] is True),
+                       ("resource >= milestone", lambda a: a[0] == "le")],
+                      "results of trials that are not pending (or below their rung level) fill slots of the rung")
+    mg = P.method("SynchronousHyperbandBracketManager", "on_result")
+    cg = cfg_of(mg)
+    wr = [n.id for n in cg.nodes if n.kind == "stmt" and isinstance(n.ast, (ast.Assign, ast.AugAssign))
+          and any(U(t) == "self._primary_bracket_id" for t in (n.ast.targets if isinstance(n.ast, ast.Assign) else [n.ast.target]))]
+    require_guard(ctx, rep, "S1", mg, "SynchronousHyperbandBracketManager.on_result: the primary pointer moves | the result was for the primary bracket", wr,
+                  [("bracket_id == self._primary_bracket_id", lambda a: a[0] == "eq" and a[3] is True and "self._primary_bracket_id" in (a[1], a[2]))],
+                  "a result for a later bracket moves the primary pointer: the open primary bracket is skipped")
+
+
 def s9(ctx, rep):
     """the top list of a completed rung is cut to the size of the rung above it: get_top_list(rung = rungs[k - 1],
     new_len = size of rungs[k]) at every call site"""
@@ -333,6 +367,7 @@ def run(ctx, rep, tier="quick"):
     s1(ctx, rep)
     s1b(ctx, rep)
     s2(ctx, rep)
+    s2b(ctx, rep)
     s3(ctx, rep)
     s4_s5(ctx, rep)
     s6(ctx, rep)
